@@ -74,6 +74,23 @@ def run():
         if iout[f"s{k}"]["end"] != want:
             ck.reject("C03:iterator-body-scope", f"{src!r} gives {iout[f's{k}']['end']}, expected {want}", {"src": src, "observed": iout[f"s{k}"]["end"], "expected": want})
     ck.cov["iterator_body_scope_programs"] = len(iter_scopes)
+    # wide calls: positional arguments, parameters and keywords in numbers around every power of two a table or cache might be sized by
+    sizes = [63, 64, 65, 66, 127, 128, 129, 255, 256, 257, 1023, 1024, 1025] if thorough else [64, 65, 66, 129, 257, 1025]
+    wide = []
+    for n in sizes:
+        ps = ", ".join(f"p{k}" for k in range(1, n + 1))
+        args = ", ".join(str(k) for k in range(1, n + 1))
+        wide += [(f"xs := (1:{n + 1}).A; {{|a| [\\1, \\{n - 1}, \\{n}, \\0.len]}}(*xs)", f"val:[1, {n - 1}, {n}, {n}]"),
+                 (f"(1:{n + 1}).A.{{|a, b| [a, b, \\0.len, \\{n}]}}", f"val:[1, 2, {n}, {n}]"),
+                 (f"{{|{ps}| [p1, p{n}, \\{n}, \\0.len]}}({args})", f"val:[1, {n}, {n}, {n}]"),
+                 (f"{{|{ps}| [p1, p{n - 1}, p{n}]}}({', '.join(str(k) for k in range(1, n))})", f"val:[1, {n - 1}, nil]"),
+                 (f"o := (1:{n + 1}).A@{{|i| [\"k#{{i}}\", i]}}.O; {{|k1: 0, k{n}: 0, zz: 5| [k1, k{n}, zz, \\_.keys.len, \\k{n - 1}]}}(**o)", f"val:[1, {n}, 5, {n}, {n - 1}]"),
+                 (f"f := {{|*rest| rest.len}}; f({args})" if False else f"m := {{um: m{{|a, b| [a, b, \\0.len]}}}}; xs := (1:{n + 1}).A; m.um(*xs)", f"val:[1, 2, {n + 1}]")]
+    wout = run_cases([{"id": f"w{k}", "src": src, "fuel": 400000, "deadline_ms": 10000} for k, (src, _) in enumerate(wide)], label="C03 wide calls")
+    for k, (src, want) in enumerate(wide):
+        if wout[f"w{k}"]["end"] != want:
+            ck.reject("C03:wide-call", f"{src[:160]!r}... gives {wout[f'w{k}']['end'][:200]}, expected {want}", {"src": src, "observed": wout[f"w{k}"]["end"][:500], "expected": want})
+    ck.cov["wide_call_programs"] = len(wide)
     ck.cov["repl_sessions"] = nrepl
     ck.assumptions = ["probe(k)/say(x) are harness built-ins injected into the global scope; they receive the caller's environment",
                       "programs outside the PanEval fragment (status unsupported) are discarded, not judged"]
